@@ -461,6 +461,24 @@ def discharge(prog, f, b, t, kind, ds):
             for fct in facts:
                 if (fct[0] == "Gt" and fct[1] == A[2] and fct[2] == A[3]) or (fct[0] == "Lt" and fct[1] == A[3] and fct[2] == A[2]):
                     return "guarded: %s > %s so the difference is >= 1" % (show(A[2]), show(A[3]))
+        # x.len() - n where n counts elements of an iterator over the same x (or is 0): n <= len
+        if A[0] == "call" and str(A[1]).endswith(("String::len", "<impl str>::len", "<impl [T]>::len", "Vec::<T, A>::len")) and B[0] == "var" and A[2]:
+            base = strip(A[2][0])
+            defs = f.defs.get(B[1], [])
+            good = bool(defs)
+            for df in defs:
+                if df[0] == "s":
+                    d2 = strip(f.desc_rvalue(df[4]))
+                    if d2[:2] != ("const", 0):
+                        good = False
+                elif df[0] == "call":
+                    t2 = df[4]
+                    if not (t2.get("fn") or "").endswith("Iterator::count") or not contains(strip(f.desc_op(t2["args"][0])), lambda x: x == base):
+                        good = False
+                else:
+                    good = False
+            if good:
+                return "the subtrahend counts elements of an iterator over the same text (or is 0), so it is <= len"
         # (a + b) - b  /  a.len() - a.len()
         if A == B:
             return "x - x"
